@@ -82,6 +82,15 @@ def cases(shard, rnd):
                 yield {'t': 'array', 'v': [rnd.choice([j, None, 'v', {'b': 1,
                                                                       'a': 2}])
                                            for j in range(n)]}
+        # names that are prefixes of one another, in tables of every size
+        # class (a bulk path for "big" tables may sort something else)
+        for n_ in (2, 3, 8, 15, 16, 17, 23, 24, 25, 31, 32, 33, 40, 64, 65,
+                   100, 128, 129, 255, 256, 257, 300):
+            for _rep in range(3):
+                t = gv.prefix_family_table(rnd, n_)
+                if rnd.random() < 0.3:
+                    t = {'outer': t, 'arr': [dict(t)]}
+                yield {'t': 'table', 'v': t}
         for i in range(shard['n']):
             k = rnd.random()
             if k < 0.25:
